@@ -165,10 +165,11 @@ type State struct {
 	neq    map[string]Lin
 	nonnil map[interface{}]bool
 	truth  map[interface{}]bool // boolean SSA values with known truth value
+	nnPath map[string]interface{} // memory locations (access-path key -> path) currently holding a non-nil value
 }
 
 func NewState() *State {
-	return &State{facts: map[string]Lin{}, neq: map[string]Lin{}, nonnil: map[interface{}]bool{}, truth: map[interface{}]bool{}}
+	return &State{facts: map[string]Lin{}, neq: map[string]Lin{}, nonnil: map[interface{}]bool{}, truth: map[interface{}]bool{}, nnPath: map[string]interface{}{}}
 }
 
 func (s *State) Clone() *State {
@@ -184,6 +185,9 @@ func (s *State) Clone() *State {
 	}
 	for k, v := range s.truth {
 		n.truth[k] = v
+	}
+	for k, v := range s.nnPath {
+		n.nnPath[k] = v
 	}
 	return n
 }
@@ -255,7 +259,7 @@ func (s *State) equal(o *State) bool {
 	if s == nil || o == nil {
 		return s == o
 	}
-	if len(s.facts) != len(o.facts) || len(s.neq) != len(o.neq) || len(s.nonnil) != len(o.nonnil) || len(s.truth) != len(o.truth) {
+	if len(s.facts) != len(o.facts) || len(s.neq) != len(o.neq) || len(s.nonnil) != len(o.nonnil) || len(s.truth) != len(o.truth) || len(s.nnPath) != len(o.nnPath) {
 		return false
 	}
 	for k, v := range s.facts {
@@ -275,6 +279,11 @@ func (s *State) equal(o *State) bool {
 	}
 	for k, v := range s.truth {
 		if w, ok := o.truth[k]; !ok || w != v {
+			return false
+		}
+	}
+	for k := range s.nnPath {
+		if _, ok := o.nnPath[k]; !ok {
 			return false
 		}
 	}
